@@ -61,7 +61,7 @@ func cases(tier string, seed int64) []eng.Case {
 			continue
 		}
 		c := cfg{LogN: logN, Q: q, P: p, QBits: qb, PBits: pb}
-		for _, kind := range []string{"rescale", "modup", "moddown", "decompose"} {
+		for _, kind := range []string{"rescale", "modup", "moddown", "decompose", "gadgetrecomb"} {
 			if (kind == "modup" || kind == "moddown") && np == 0 {
 				continue
 			}
@@ -81,6 +81,8 @@ func cases(tier string, seed int64) []eng.Case {
 				run = func(c *eng.Ctx) { runModDown(c, cc) }
 			case "decompose":
 				run = func(c *eng.Ctx) { runDecompose(c, cc) }
+			case "gadgetrecomb":
+				run = func(c *eng.Ctx) { runGadgetRecomb(c, cc) }
 			}
 			out = append(out, eng.Case{ID: id, Sig: "C02|" + kind, Desc: cc, Run: run})
 		}
@@ -760,6 +762,115 @@ func runDecompose(c *eng.Ctx, cf cfg) {
 						break
 					}
 				}
+			}
+		}
+	}
+}
+
+// runGadgetRecomb: the digits that the gadget product itself forms (RNS groups, and power-of-two digits on
+// top of them when BaseTwoDecomposition != 0) must recombine, against the gadget vector, to the input modulo
+// Q_level. The gadget vector is written into an all-zero gadget ciphertext by the library's own
+// AddPolyTimesGadgetVectorToGadgetCiphertext applied to the constant polynomial 1 (no encryption, no noise):
+// <decomp(x), g> = P*x mod QP, so GadgetProduct must return (x, 0) - exactly without P, within 1 per
+// coefficient after the division by P.
+func runGadgetRecomb(c *eng.Ctx, cf cfg) {
+	params, err := rlwe.NewParametersFromLiteral(rlwe.ParametersLiteral{LogN: cf.LogN, Q: cf.Q, P: cf.P, NTTFlag: true})
+	if err != nil {
+		c.Violate("C02|rlwe.NewParametersFromLiteral|error-on-admissible", err.Error(), cf)
+		return
+	}
+	rnd := c.Rand()
+	c.Sample(cf)
+	n := params.N()
+	eval := rlwe.NewEvaluator(params, nil)
+	maxLQ, maxLP := params.MaxLevelQ(), params.MaxLevelP()
+	for trial := 0; trial < 6; trial++ {
+		lq := maxLQ
+		if trial > 0 {
+			lq = rnd.N(maxLQ + 1)
+		}
+		lp := rnd.N(maxLP+2) - 1
+		w := 0
+		if lp <= 0 && rnd.N(3) != 0 {
+			w = eng.Pick(rnd, 1, 2, 5, 7, 8, 12, 16, 20, 27, 30, 1+rnd.N(30))
+		}
+		var gct *rlwe.GadgetCiphertext
+		if !c.Try("C02|rlwe.NewGadgetCiphertext", func() { gct = rlwe.NewGadgetCiphertext(params, 1, lq, lp, w) }) {
+			continue
+		}
+		rqk := params.RingQ().AtLevel(lq)
+		one := rqk.NewPoly()
+		for i := 0; i <= lq; i++ {
+			one.Coeffs[i][0] = 1
+		}
+		rqk.NTT(one, one)
+		rqk.MForm(one, one)
+		var aerr error
+		if !c.Try("C02|rlwe.AddPolyTimesGadgetVectorToGadgetCiphertext", func() {
+			aerr = rlwe.AddPolyTimesGadgetVectorToGadgetCiphertext(one, []rlwe.GadgetCiphertext{*gct}, *params.RingQP(), rqk.NewPoly())
+		}) {
+			continue
+		}
+		if aerr != nil {
+			c.Violate("C02|rlwe.AddPolyTimesGadgetVectorToGadgetCiphertext|error", aerr.Error(), cf)
+			continue
+		}
+		for _, level := range []int{lq, rnd.N(lq + 1)} {
+			for _, isNTT := range []bool{true, false} {
+				rq := params.RingQ().AtLevel(level)
+				qm := cf.Q[:level+1]
+				Q := prod(qm)
+				vals := boundaryValues(rnd, n, Q, new(big.Int).SetUint64(qm[rnd.N(level+1)]))
+				in := rq.NewPoly()
+				setPoly(in, qm, vals)
+				if isNTT {
+					rq.NTT(in, in)
+				}
+				in0 := *in.CopyNew()
+				ct := rlwe.NewCiphertext(params, 1, level)
+				ct.IsNTT = isNTT
+				c.Distinct(fmt.Sprintf("gadgetrecomb/%s/%d/%d/%d/%d/%v", chainKey(cf), lq, lp, w, level, isNTT), true)
+				sig := "C02|rlwe.Evaluator.GadgetProduct"
+				if !c.Try(sig, func() { eval.GadgetProduct(level, in, gct, ct) }) {
+					continue
+				}
+				c.Count("gadget_recombinations", 1)
+				c.Check(eqPoly(in, in0, level), sig+"|input-modified", nil)
+				got0, got1 := *ct.Value[0].CopyNew(), *ct.Value[1].CopyNew()
+				if isNTT {
+					rq.INTT(got0, got0)
+					rq.INTT(got1, got1)
+				}
+				tol := uint64(0)
+				if lp >= 0 {
+					tol = 1
+				}
+				okv, ok1 := true, true
+				var where string
+				for i := 0; i <= level && okv; i++ {
+					q := qm[i]
+					for j := 0; j < n; j++ {
+						want := new(big.Int).Mod(vals[j], new(big.Int).SetUint64(q)).Uint64()
+						g := got0.Coeffs[i][j]
+						d := (g + q - want) % q
+						if d > q/2 {
+							d = q - d
+						}
+						if g >= q || d > tol {
+							okv = false
+							where = fmt.Sprintf("modulus %d (%d) coefficient %d: got %d want %d", i, q, j, g, want)
+							break
+						}
+						if got1.Coeffs[i][j] != 0 {
+							ok1 = false
+						}
+					}
+				}
+				desc := func() string {
+					return fmt.Sprintf("Q=%v P=%v keyLevelQ=%d keyLevelP=%d BaseTwoDecomposition=%d level=%d isNTT=%v: %s", cf.Q, cf.P, lq, lp, w, level, isNTT, where)
+				}
+				c.Check(okv, sig+"|digits-do-not-recombine-to-the-input", desc)
+				c.Check(ok1, sig+"|second-component-not-zero", desc)
 			}
 		}
 	}
